@@ -186,7 +186,8 @@ def judge_mutation(ctx, case, base_prog, base_text, base_rc_clean, stage, mseed)
                           {'slots': [mutdiff.show_slot(s) for s in ss]}))
     col.feature('mutated_' + str(kind))
     # (2) unrelated
-    checker = rc.RC(prog)
+    # an erased program is judged the way a compiler sees it: removed annotations are inferred
+    checker = rc.RC(prog, infer=(stage == 'E'))
     R = checker.R
     shape = '?'
     rel = 'unknown'
@@ -228,6 +229,9 @@ def judge_mutation(ctx, case, base_prog, base_text, base_rc_clean, stage, mseed)
 def _shape(t, ir):
     if t is None:
         return 'none'
+    if type(ir).__name__ == 'WildCardType':
+        # a declared top-level wildcard (the mutation does not unwrap it)
+        return 'wildcard:' + _shape(t, getattr(ir, 'bound', None))
     k = t[0]
     if k == 'b':
         return ('primitive-' if getattr(ir, 'primitive', False) else 'builtin-') + t[1].replace('Type', '')
@@ -293,18 +297,57 @@ def make_judge(ctx, rerolls):
             te = pg.erase(eprog, lang)
             if te.is_transformed:
                 etext = pg.translate(eprog, lang)
+                ebase, _ = rc.check_program(eprog, infer=True)
+                eclean = clean and not any(v['rule'][0] == 'R' for v in ebase)
+                if clean and not eclean:
+                    col.feature('erased_input_rejected_by_RC(C03 territory)')
                 for j in range(max(1, rerolls // 2)):
-                    judge_mutation(ctx, case, eprog, etext, clean, 'E', seed0 * 31 + 1000 + j)
+                    judge_mutation(ctx, case, eprog, etext, eclean, 'E', seed0 * 31 + 1000 + j)
         except Exception as e:
             col.feature('pipeline_exception(C18 territory):' + type(e).__name__)
         return [], False, None, progcheck.text_key(base_text) + 'base'
     return judge
 
 
+class HandCollector:
+    """Adapter: tags signatures of violations found on hand-shaped programs (vlib/handprog.py)."""
+
+    def __init__(self, col, labels):
+        self._col, self._labels = col, labels
+
+    def __getattr__(self, name):
+        return getattr(self._col, name)
+
+    def violation(self, sig, detail, case, size=0):
+        tag = '+'.join(sorted({l.split('/')[0] for l in self._labels}))
+        self._col.violation(sig + '/handmade:' + tag, dict(detail, units=self._labels),
+                            {'handmade': self._labels, 'lang': detail.get('lang'), 'note': 'see vlib/handprog.py'}, size=len(self._labels))
+
+
+def handmade_leg(spec, col, n, rerolls):
+    from vlib import handprog, hyp
+    lang = spec['lang']
+
+    class Case:
+        pass
+
+    def one(x):
+        prog, labels = x
+        hc = HandCollector(col, labels)
+        hctx = Ctx(hc, lang)
+        case = Case()
+        case.program, case.lang, case.seed, case.tape, case.mode, case.switches = prog, lang, 3, None, 'handmade', []
+        case.key = lambda: {'handmade': labels, 'lang': lang}
+        make_judge(hctx, rerolls)(case)
+        col.feature('handmade_programs')
+    hyp.explore(handprog.programs(lang), one, n, col.shard_seed('hand'))
+
+
 def run_shard(spec, col):
     quick = col.tier == 'quick'
     lang = spec['lang']
     boot.init(lang)
+    handmade_leg(spec, col, 40 if quick else 800, 4)
     ctx = Ctx(col, lang)
     progcheck.run(spec, col, make_judge(ctx, 4 if quick else 6), n_seed=10 if quick else 250,
                   n_tape=16 if quick else 500, shrink=False)
